@@ -145,6 +145,15 @@ func runFltExh(c *core.Ctx) {
 					p := o.Path(u)
 					if strings.HasPrefix(p, "recv.f.") && strings.Count(p, ".") == 2 && !strings.ContainsAny(p, "[(") {
 						copies[strings.TrimPrefix(p, "recv.f.")] = true
+					} else if strings.HasPrefix(p, "recv.") && strings.Count(p, ".") >= 2 && !strings.ContainsAny(p, "[(") {
+						// the copies regrouped into sub-structs of the matcher (`m.lim.limit`): like-named
+						// up to the capital letter an unexported field loses
+						last := p[strings.LastIndex(p, ".")+1:]
+						for _, f := range filterFields {
+							if strings.EqualFold(last, f) {
+								copies[f] = true
+							}
+						}
 					}
 				}
 			})
@@ -162,7 +171,7 @@ func runFltExh(c *core.Ctx) {
 			var targets []ssa.Value
 			an.Instrs(ctor, func(in ssa.Instruction) {
 				st, isStore := in.(*ssa.Store)
-				if !isStore || !strings.HasSuffix(an.PathOf(st.Addr), ".f."+f) {
+				if !isStore || !(strings.HasSuffix(an.PathOf(st.Addr), ".f."+f) || matcherCopyAddr(an.PathOf(st.Addr), f)) {
 					return
 				}
 				if an.PathOf(st.Val) == "p:"+ctor.Params[0].Name()+"."+f {
@@ -182,7 +191,7 @@ func runFltExh(c *core.Ctx) {
 				if !isMU || !fromField(an.PathOf(mu.Key)) {
 					return
 				}
-				if strings.Contains(an.PathOf(mu.Map), ".f."+f) {
+				if mp := an.PathOf(mu.Map); strings.Contains(mp, ".f."+f) || matcherCopyAddr(mp, f) {
 					ok = true
 				}
 				for _, src := range an.Sources(ctor, mu.Map) {
@@ -399,15 +408,59 @@ func runLimDone(c *core.Ctx) {
 		return
 	}
 	c.CountFuncs(2)
-	fr := an.SymFrame("recv.cnt", "recv.f.Limit")
-	t, _, n, ok := fr.FuncBoolMeaning(done, 0, nonNilOnPath("recv.f.Limit"), nil)
+	// where the matcher keeps its limit and its counter: `recv.f.Limit` / `recv.cnt` on the pinned
+	// tree; read off the constructor (the field filter.Limit is copied into) and off LimitMatch
+	// (the integer field of the receiver it stores into) when the struct was regrouped
+	limitPath, cntPath := "recv.f.Limit", "recv.cnt"
+	if ctor := P.Func(P.Root, "NewReqFilterMatcher"); ctor != nil && len(ctor.Params) > 0 {
+		an.Instrs(ctor, func(in ssa.Instruction) {
+			if st, ok := in.(*ssa.Store); ok && an.PathOf(st.Val) == "p:"+ctor.Params[0].Name()+".Limit" {
+				if ap := an.PathOf(st.Addr); strings.HasPrefix(ap, "alloc:") && strings.Contains(ap, ".") {
+					limitPath = "recv" + ap[strings.Index(ap, "."):]
+				}
+			}
+		})
+	}
+	an.Region(lm, nil, func(o an.Occ) {
+		if st, ok := o.In.(*ssa.Store); ok {
+			if bt, isB := st.Val.Type().Underlying().(*types.Basic); isB && bt.Info()&types.IsInteger != 0 && !storeToParamCopy(st) {
+				if ap := o.Path(st.Addr); strings.HasPrefix(ap, "recv.") && !strings.ContainsAny(ap, "[(") {
+					cntPath = ap
+				}
+			}
+		}
+	})
+	// Done may hand the question to a method of the sub-struct that holds limit and counter
+	// (`return m.lim.done()`): that method's own paths carry the same names (its receiver is the
+	// field it lives in), so it is read in Done's place
+	for i := 0; i < 2; i++ {
+		rbs := an.ReturnBlocks(done)
+		if len(rbs) != 1 || len(done.Blocks) != 1 {
+			break
+		}
+		rv := an.ReturnValues(an.LastInstr(rbs[0]).(*ssa.Return))
+		if len(rv) != 1 {
+			break
+		}
+		call, isCall := rv[0].(*ssa.Call)
+		if !isCall {
+			break
+		}
+		h := an.StaticCallee(&call.Call)
+		if h == nil || !P.InModule(h) || h.Signature.Recv() == nil || len(call.Call.Args) != 1 || an.RecvOwnerHook(h) == "" || an.RecvOwnerHook(h) != an.PathOf(call.Call.Args[0]) {
+			break
+		}
+		done = h
+	}
+	fr := an.SymFrame(cntPath, limitPath)
+	t, _, n, ok := fr.FuncBoolMeaning(done, 0, nonNilOnPath(limitPath), nil)
 	c.CountPaths(n)
 	c.Check(ok && n > 0 && t.Equal(an.Range(0, an.PosInf)), nil, fname(c, done), "done(limit present)", P.Pos(done.Pos()),
 		"with a limit: Done ⇔ cnt ∈ "+t.Format("limit"), "with a limit Done holds when cnt ∈ "+t.Format("limit")+", want [limit,+∞): exhausted exactly when at least limit events matched")
 	// without a limit never done
 	absent := func(p an.Path) bool {
 		for _, cd := range p.Conds() {
-			if is, nonNilWhenTrue := nilTest(cd.V, "recv.f.Limit"); is && cd.True != nonNilWhenTrue {
+			if is, nonNilWhenTrue := nilTest(cd.V, limitPath); is && cd.True != nonNilWhenTrue {
 				return true
 			}
 		}
@@ -418,9 +471,10 @@ func runLimDone(c *core.Ctx) {
 	c.Check(ok2 && n2 > 0 && t2.IsEmpty(), nil, fname(c, done), "done(no limit)", P.Pos(done.Pos()), "without a limit Done is false", "a matcher without limit can report Done")
 	// LimitMatch: cnt += 1 exactly on Match() == true
 	var st *ssa.Store
-	an.Instrs(lm, func(in ssa.Instruction) {
-		if s, ok := in.(*ssa.Store); ok && an.PathOf(s.Addr) == "recv.cnt" {
-			st = s
+	var stOcc an.Occ
+	an.Region(lm, nil, func(o an.Occ) {
+		if s, ok := o.In.(*ssa.Store); ok && o.Path(s.Addr) == cntPath && !storeToParamCopy(s) {
+			st, stOcc = s, o
 		}
 	})
 	good := false
@@ -431,7 +485,11 @@ func runLimDone(c *core.Ctx) {
 		if isBin {
 			k, _ = an.ConstInt(b.Y)
 		}
-		gs := an.Guards(lm, st.Block())
+		// (a store inside a counter method the matcher calls: the guards that count are those of the call in LimitMatch)
+		gs := an.Guards(lm, stOcc.Site().Block())
+		if len(stOcc.Chain) > 0 && len(an.Guards(st.Parent(), st.Block())) > 0 {
+			gs = append(gs, an.Guards(st.Parent(), st.Block())...)
+		}
 		isMatch := func(v ssa.Value) bool {
 			call, isCall := v.(*ssa.Call)
 			return isCall && an.StaticCallee(&call.Call) == match && an.PathOf(call.Call.Args[0]) == "recv" && an.PathOf(call.Call.Args[1]) == "p:"+lm.Params[1].Name()
@@ -441,7 +499,7 @@ func runLimDone(c *core.Ctx) {
 			v, pol := stripNot(gs[0].V, gs[0].True)
 			onlyMatch = pol && isMatch(v)
 		}
-		good = isBin && b.Op == token.ADD && an.PathOf(b.X) == "recv.cnt" && k == 1 && onlyMatch
+		good = isBin && b.Op == token.ADD && stOcc.Path(b.X) == cntPath && k == 1 && onlyMatch
 		detail = fmt.Sprintf("counter update %s under %d guard(s); want cnt+1 exactly on Match(event) == true", an.PathOf(st.Val), len(gs))
 		// result is the Match verdict: the call's value, or a constant on the edge that fixes the verdict
 		for _, rb := range an.ReturnBlocks(lm) {
@@ -477,6 +535,50 @@ func runLimDone(c *core.Ctx) {
 		}
 	}
 	c.Check(good, nil, fname(c, lm), "count", P.Pos(lm.Pos()), "cnt advances by exactly one, exactly when Match(event) is true, and that verdict is returned", detail)
+}
+
+// storeToParamCopy: the store goes into (a field of) the local copy go/ssa makes of a by-value
+// parameter or receiver (`func (l limitCounter) add() { l.cnt++ }`): the caller never sees it.
+func storeToParamCopy(st *ssa.Store) bool {
+	base := st.Addr
+	for {
+		switch x := base.(type) {
+		case *ssa.FieldAddr:
+			base = x.X
+			continue
+		case *ssa.IndexAddr:
+			// an element of an array held by value inside the copy
+			if _, isArr := x.X.Type().Underlying().(*types.Pointer); isArr {
+				base = x.X
+				continue
+			}
+		}
+		break
+	}
+	a, ok := base.(*ssa.Alloc)
+	if !ok || a.Heap {
+		return false
+	}
+	stores := an.StoresTo(a)
+	if len(stores) == 0 {
+		return false
+	}
+	for _, s := range stores {
+		if _, isParam := s.Val.(*ssa.Parameter); !isParam {
+			return false
+		}
+	}
+	return true
+}
+
+// matcherCopyAddr: path (a store target / map in the matcher's constructor) is a field of the
+// freshly allocated matcher whose name is the filter field's, up to the capital letter.
+func matcherCopyAddr(path, field string) bool {
+	if !strings.HasPrefix(path, "alloc:") || strings.ContainsAny(path, "[(") {
+		return false
+	}
+	i := strings.LastIndex(path, ".")
+	return i >= 0 && strings.EqualFold(path[i+1:], field)
 }
 
 func runOrNosc(c *core.Ctx) {
